@@ -115,3 +115,53 @@ func C20NodeFresh() {
 		zz.Assert(getNodeJSON(root) == idr.JSONify2(root), "_node of an ancestor reflects its present content")
 	}
 }
+
+// C14ParJS: two goroutines run javascript custom functions at the same time over the shared VM
+// pool and program cache (the same script text, so the program is shared). For every
+// interleaving within the preemption bound: no VM is used by two threads without
+// synchronisation (race monitor), and each call sees the built-ins and its own arguments only —
+// the result it would obtain running alone.
+func C14ParJS() {
+	zz.MapOrder(0)
+	resetCaches()
+	argsA, usedA := zzPickArgs("A")
+	argsB, usedB := zzPickArgs("B")
+	warm := zz.NondetBool("pooledVM")
+	want := func(used []bool) string {
+		w := ""
+		for i, n := range zzProbeNames {
+			if i > 0 {
+				w += ","
+			}
+			switch {
+			case used[i]:
+				w += "string"
+			case n == "Math":
+				w += "object"
+			default:
+				w += "undefined"
+			}
+		}
+		return w
+	}
+	iters := zz.Stress(200)
+	for it := 0; it < iters; it++ {
+		if warm {
+			// one VM already in the pool: both threads may contend for it
+			_, _ = JavaScript(nil, zzProbeScript(false))
+		}
+		var ra, rb interface{}
+		var ea, eb error
+		zz.Par(func() {
+			ra, ea = JavaScript(nil, zzProbeScript(false), argsA...)
+		}, func() {
+			rb, eb = JavaScript(nil, zzProbeScript(false), argsB...)
+		})
+		zz.Cover("joined")
+		zz.Assert(ea == nil && eb == nil, "both concurrent calls succeed")
+		ga, _ := ra.(string)
+		gb, _ := rb.(string)
+		zz.Assert(ga == want(usedA), "thread A sees the built-ins and its own arguments only")
+		zz.Assert(gb == want(usedB), "thread B sees the built-ins and its own arguments only")
+	}
+}
